@@ -118,6 +118,8 @@ def path_task(item):
                             b.copy_to_path(src, full)
                         else:
                             b.copy_to_path(src, full)
+                except explore.Hang:
+                    raise
                 except BaseException as e:  # noqa
                     exc = e
                 after = snapshot(root)
